@@ -1,4 +1,5 @@
 import Proofs.SortExt
+import Proofs.SortCode
 /-!
 # C16 — External sort returns the sorted (and combined) multiset of its input
 
@@ -192,6 +193,35 @@ theorem extSort_eq_spec {lt : α → α → Bool} (h : StrictWeak lt) (blocks : 
   refine Perm.eq_of_pairwise (le := fun a b => lt b a = false) ?_ s1 s2 (p1.trans (mergeSort_perm _ _).symm)
   intro a b ha hb hab hba
   exact htot a b (p1.subset ha) ((mergeSort_perm _ _).subset hb) hba hab
+
+/-! ## The plan the code computes
+
+`codeSort` mirrors the arity logic of `Sort::Merge`, `MergingReader::Run` and
+`OwningMergingReader` (per-buffer size, how many runs fit into the reading memory, when to stop
+for the lazy merge).  The check compares its number of passes and `Merge`'s return value with
+the real code on every generated configuration.  It is an instance of `extSort`, so every
+theorem above applies to it. -/
+
+/-- **codeSort_refines**: whatever `codeSort` outputs is `extSort blocks plan` for a plan with
+exactly as many passes as the code made. -/
+theorem codeSort_refines (lt : α → α → Bool) (comb) (pick) (cfg : Cfg) (lazyMem : Nat) (blocks : List (List α))
+    (out : List α) (p ret : Nat) (h : codeSort lt comb pick cfg lazyMem blocks = .ok (out, p, ret)) :
+    ∃ plan : List (List Nat), plan.length = p ∧ extSort lt comb pick blocks plan = some out :=
+  codeSort_refines_aux lt comb pick cfg lazyMem blocks out p ret h
+
+/-- hence: sorted, and a permutation of the input without a combiner, for every configuration
+`(buffer_size, total_memory, lazy_memory)` and every block structure -/
+theorem codeSort_sorted_perm {lt : α → α → Bool} (h : StrictWeak lt) (pick) (cfg : Cfg) (lazyMem : Nat)
+    (blocks : List (List α)) (out : List α) (p ret : Nat)
+    (ho : codeSort lt neverCombine pick cfg lazyMem blocks = .ok (out, p, ret)) :
+    out.Pairwise (fun a b => lt b a = false) ∧ out ~ blocks.flatten := by
+  obtain ⟨plan, _, hp⟩ := codeSort_refines lt neverCombine pick cfg lazyMem blocks out p ret ho
+  exact ⟨extSort_sorted h (neverCombine_keeps lt) pick blocks plan hp, extSort_perm h pick blocks plan hp⟩
+
+/-- the fixed-size-record sort used per block (`SizedSort`, modelled by a stable merge sort) -/
+theorem sizedSort_perm_sorted {lt : α → α → Bool} (h : StrictWeak lt) (b : List α) :
+    (blockSort lt b).Pairwise (fun a b => lt b a = false) ∧ blockSort lt b ~ b :=
+  ⟨blockSort_sorted h b, blockSort_perm lt b⟩
 
 /-! ## Non-vacuity: the hypotheses are satisfiable by the orders and the combiner of the code -/
 
